@@ -185,9 +185,12 @@ def decorate(w, wn, s, rnd):
     o.energy.global_price = rnd.choice([0.0, 0.12])
     o.energy.global_efficiency = rnd.choice([75.0, 65.0])
     o.energy.demand_charge = rnd.choice([0.0, 1.5])
-    o.reaction.bulk_coeff = rnd.choice([0.0, -1.0 / 86400.0])
+    # bulk reactions of order 1 (per day in the file) or 2 (written as they are); tanks have their own order
+    o.reaction.bulk_order = rnd.choice([1, 1, 2])
+    o.reaction.tank_order = rnd.choice([1, 1, 2])
+    bulk_day = 86400.0 if o.reaction.bulk_order == 1 else 1.0
+    o.reaction.bulk_coeff = rnd.choice([0.0, -1.0 / bulk_day])
     o.reaction.wall_coeff = rnd.choice([0.0, -0.5 / 86400.0])
-    o.reaction.bulk_order = 1
     # wall reactions of order 0 (mass/area/time) or 1 (length/time), also per pipe: the order applies to every coefficient of
     # the [REACTIONS] section wherever its ORDER line stands.  Values are chosen printable at %.4f in both unit families.
     o.reaction.wall_order = rnd.choice([1, 1, 0])
@@ -197,7 +200,7 @@ def decorate(w, wn, s, rnd):
         if l["type"] == "pipe" and rnd.random() < 0.25:
             wn.get_link(l["name"]).wall_coeff = (-3.048 / 86400.0) if o.reaction.wall_order == 1 else (-800e-6 / 86400.0)
         if l["type"] == "pipe" and rnd.random() < 0.15:
-            wn.get_link(l["name"]).bulk_coeff = -0.75 / 86400.0
+            wn.get_link(l["name"]).bulk_coeff = -0.75 / bulk_day
     for l in s["links"]:          # controls on valve settings and pump status
         link = wn.get_link(l["name"])
         if l["type"] in ("PRV", "PSV", "FCV", "TCV") and rnd.random() < 0.7:
@@ -220,7 +223,7 @@ def decorate(w, wn, s, rnd):
             if rnd.random() < 0.3:
                 tk.overflow = True
             if rnd.random() < 0.3:
-                tk.bulk_coeff = -0.2 / 86400.0
+                tk.bulk_coeff = -0.2 / (86400.0 if o.reaction.bulk_order == 1 else 1.0)
 
 
 def one(job):
